@@ -8,6 +8,7 @@ MULTS = [1, 1, 1, 2, 2, 3, 5, 254, 255, 256, 257, 600]
 def gen_ua(rng, dist):
     def hit(k): dist[k] = dist.get(k, 0) + 1
     cls = rng.choice(['random', 'random', 'reorder', 'subset', 'superset', 'bigmult', 'bigmult', 'shortcut', 'shortcut_edge', 'empty_p', 'empty_c', 'delta1', 'large'])
+    if rng.random() < 0.004: cls = 'hugemult'
     hit('ua_' + cls)
     nk = rng.choice([1, 2, 3, 5, 8, 12])
     def ms(keys, big=False):
@@ -44,6 +45,10 @@ def gen_ua(rng, dist):
         if 'ins' in kinds:
             for k in rng.sample(range(4000, 6000), c_n): cnt[k] = rng.choice([1, 1, 2])
         c = [k for k, m in cnt.items() for _ in range(m)]; rng.shuffle(c)
+    elif cls == 'hugemult':   # a multiplicity (and a multiplicity DELTA) past the width of u16
+        k = keys[0]; hi = rng.choice([65535, 65536, 65537, 70001]); lo = rng.choice([0, 1, 2, 300])
+        others = ms(keys[1:3])
+        p, c = ([k] * hi + others, [k] * lo + others) if rng.random() < 0.6 else ([k] * lo + others, [k] * hi + others)
     elif cls == 'empty_p':
         p = []; c = ms(keys)
     elif cls == 'empty_c':
